@@ -300,6 +300,11 @@ def run_c03_c09(r: Run, prop):
     for comp, req, z in ([("Mg", 100)], "n:100", 2), ([("Mg", 150)], "n:120", -1), ([("Mg", 100), ("Si", 10)], "n:110", 1), \
             ([("Mg", 100)], "n:100", 0):
         cases.append((comp, req, z, PROTON, "vec"))
+    # peak requests and atom counts named by new literals of the changed code
+    from . import common as _c
+    for d in _c.dict_ints(1, 400):
+        cases.append(([("C", 60), ("H", 120), ("O", 60)], f"n:{d}", 0, PROTON, "vec"))
+        cases.append(([("Mg", min(d, 300)), ("C", 2)], "n:7", 1, PROTON, "map"))
     if prop == "C09":
         pool = [[("C", 6), ("H", 12), ("O", 6)], [("K", 3)], [("Si", 2), ("Mg", 1), ("O", 4)], [("H", 2), ("O", 1)],
                 [("Cl", 2)], [("K", 300)], [("Br", 4)], [("S", 8)], [("Ca", 1), ("Cl", 2)], [("C", 60), ("H", 120), ("O", 60)]]
